@@ -615,7 +615,7 @@ func c20R6(e *Engine) {
 			}
 			clientSet, tableSetInLoop := false, false
 			conditional := ""
-			instrs(fn, func(in ssa.Instruction) {
+			instrsDeep(fn, func(in ssa.Instruction) {
 				st, ok := in.(*ssa.Store)
 				if !ok {
 					return
@@ -653,7 +653,7 @@ func c20R6(e *Engine) {
 						}
 					}
 					// the loop header itself may be conditional
-					for _, body := range naturalLoops(fn) {
+					for _, body := range naturalLoops(st.Parent()) {
 						if !body[st.Block()] {
 							continue
 						}
